@@ -94,7 +94,7 @@ Definition inst_ok (g : graph str mappings) (q : str * res mappings) : bool :=
 Definition check (c : case) : bool :=
   match c with
   | CInst d r =>
-      match resolve (load_root FB.C05.Instance.vg_ops) d, r with
+      match resolve_dir (load_root FB.C05.Instance.vg_ops) d, r with
       | Err, Err => true
       | Ok g, Ok qs => forallb (inst_ok g) qs
       | _, _ => false
@@ -102,7 +102,7 @@ Definition check (c : case) : bool :=
   | CDir strs d0 wf t r =>
       let d := map (fun f => (sget strs (fst f), snd f)) d0 in
       Bool.eqb (well_formed d && nodup_strb (map fst d)) wf &&
-      match resolve (load_root (tops t)) d, r with
+      match resolve_dir (load_root (tops t)) d, r with
       | Err, Err => true
       | Ok g, Ok v =>
           let idx := seq 0 (length (g_nodes g)) in
